@@ -154,7 +154,7 @@ class G:
     def human_edit(self, **kw):
         return self.edit(HUMAN, **kw)
 
-    def some_edits(self, n_ai=(1, 2), n_human=(0, 1), path=None, pos=None, ai_kinds=None):
+    def some_edits(self, n_ai=(1, 2), n_human=(0, 1), path=None, pos=None, ai_kinds=None, human_kinds=None):
         """a shuffled batch of AI and human edits"""
         rng = self.rng
         batch = ["ai"] * rng.randint(*n_ai) + ["human"] * rng.randint(*n_human)
@@ -163,7 +163,7 @@ class G:
             if b == "ai":
                 yield self.ai_edit(path=path, pos=pos, kinds=ai_kinds or ["insert", "insert", "replace", "modify", "append"])
             else:
-                yield self.human_edit(path=path, pos=pos)
+                yield self.human_edit(path=path, pos=pos, kinds=human_kinds)
 
     def install_seqed(self):
         return None
@@ -211,10 +211,12 @@ def resolve_loop(g, continue_cmd, abort_cmd, allow_abort=True, strategy=None, mu
         yield g.git(*abort_cmd, aborts=True)
 
 
-def fam_feature_branch(g, n_commits, path, name="feat"):
+def fam_feature_branch(g, n_commits, path, name="feat", rewritten=False):
     yield g.git("checkout", "-q", "-b", name)
     for _ in range(n_commits):
-        for op in g.some_edits(n_ai=(1, 2), n_human=(0, 1), path=path if g.rng.random() < 0.7 else None):
+        for op in g.some_edits(n_ai=(1, 2), n_human=(0, 1), path=path if g.rng.random() < 0.7 else None,
+                               human_kinds=(["insert", "delete", "replace", "reindent", "append"]
+                                            if rewritten and g.gated("rebase_human_intraline_edit") else None)):
             yield op
         for op in g.commit_all():
             yield op
@@ -227,7 +229,7 @@ def fam_rebase(g, kind="plain"):
     base_branch = g.branch()
     n = rng.randint(1, 3)
     pos = rng.choice(["above", "below", "interleaved", "other_file", "other_file", "conflict"])
-    yield from fam_feature_branch(g, n, path)
+    yield from fam_feature_branch(g, n, path, rewritten=True)
     yield g.git("checkout", "-q", base_branch)
     for _ in range(rng.randint(1, 2)):
         yield upstream_change(g, pos, path)
@@ -246,6 +248,8 @@ def fam_rebase(g, kind="plain"):
             yield op
         plans = ["reverse", "swap:0,1", "squash:1", "fixup:1", "drop:0", "drop:%d" % (n - 1), "edit:0",
                  "squash:1;squash:2", "reword:0", "fixup:%d" % (n - 1)]
+        if g.gated("rebase_i_drop"):
+            plans = [p for p in plans if not p.startswith("drop")]
         plan = rng.choice(plans)
         g.ex.probe("rebase_i." + plan.split(":")[0])
         yield g.git("rebase", "-i", base_branch, env=g.seq_env(plan), rewrite=True, plan=plan)
@@ -289,7 +293,8 @@ def fam_amend(g):
     if g.gated("amend_shift") and mode == "both":
         mode = "ai"
     if mode in ("ai", "both"):
-        yield g.ai_edit(pos=rng.choice(["above_ai", "below_ai", "inside_ai", "any"]))
+        yield g.ai_edit(pos=rng.choice(["above_ai", "below_ai", "inside_ai", "any"]),
+                        kinds=["insert", "append", "replace", "modify"] if g.gated("amend_shift") else None)
     if mode in ("human", "both"):
         if mode == "human" and g.gated("amend_shift"):
             # known finding amend-shift: a human-only change above/inside the commit's AI lines
@@ -348,7 +353,7 @@ def fam_reset_recommit(g):
     for _ in range(n):
         yield from g.some_edits(n_ai=(1, 2), n_human=(0, 1))
         yield from g.commit_all()
-    k = rng.randint(1, n)
+    k = 1 if g.gated("reset_multi_commit") else rng.randint(1, n)
     mode = rng.choice(["--soft", "--mixed"])
     yield g.git("reset", "-q", mode, "HEAD~%d" % k, rewrite=True)
     if rng.random() < 0.35:
